@@ -7,8 +7,9 @@
     oracle of which only the type of its answer is assumed.  All statements are for every graph, table, prism
     and input: no bound on sizes. *)
 From Coq Require Import List Arith ZArith NArith Bool Sorted Permutation.
+From Coq.Strings Require Import Byte.
 From RimeV Require Import Lookup.Defs Lookup.Model Lookup.Spec Lookup.MapProofs Lookup.QueryProofs Lookup.IterProofs
-     Lookup.LookupProofs Lookup.ScriptProofs Lookup.TableProofs Lookup.Examples Lookup.Compose Lookup.WeightProofs Lookup.LazyProofs Lookup.ComposeTable.
+     Lookup.LookupProofs Lookup.ScriptProofs Lookup.TableProofs Lookup.Examples Lookup.Compose Lookup.WeightProofs Lookup.LazyProofs Lookup.ComposeTable Lookup.ComposeAll.
 Import ListNotations.
 
 (** * Table::Query returns, at every end position, exactly the index codes that label a path of the graph *)
@@ -335,6 +336,41 @@ Proof.
     [apply compiled_index_wf|exact Hl].
 Qed.
 Print Assumptions C07_script_candidates_exact_source_to_candidates.
+
+(** the entries of the converted index are C06's enumeration, hence the collected source entries, hence the rows *)
+Theorem C07_table_has_enumerate : forall F (cast : Vo.dec -> F) (wz : F -> Z) S v c te,
+  TP.wf1 S v ->
+  (table_has (conv_head F wz (Ix.build_head cast S v)) c te <->
+   exists ie, In (c, ie) (Ix.enumerate S (Ix.build_head cast S v)) /\ te = conv_entry F wz ie).
+Proof. exact table_has_enumerate. Qed.
+Print Assumptions C07_table_has_enumerate.
+
+Theorem C07_table_has_source_rows : forall F (cast : Vo.dec -> F) (wz : F -> Z) sort_original files c txt,
+  let col := Vo.collect_files files in
+  let t := conv_head F wz (Ix.build_head cast (length (Vo.co_syll col)) (Vo.compile_vocab sort_original col)) in
+  (exists w, table_has t c (mkTE txt w)) <->
+  c <> [] /\ exists tx cs ws, In (Vo.LRow tx cs ws) (TP.source_rows files) /\ cs <> [] /\
+                              txt = conv_text tx /\ c = map (Vo.id_of (Vo.co_syll col)) (Vo.split_skip x20 cs).
+Proof. exact table_has_rows. Qed.
+Print Assumptions C07_table_has_source_rows.
+
+(** end to end, in ONE statement about the rows of the source dictionary file: for every source, prism, delimiter set,
+    flags and input the script translator's phrase candidates are exactly the rows whose code (syllables by rank in the
+    collected syllabary) labels a chain of retained edges of BuildSyllableGraph's graph from 0 *)
+Theorem C07_script_candidates_exact_source_rows :
+  forall F (cast : Vo.dec -> F) (wz : F -> Z) sort_original files cv P delims comp strict inp g0,
+  SS.prism_wf P delims -> Sy.build_syllable_graph P delims comp strict inp = Some g0 ->
+  0 < Sy.g_interpreted_length g0 ->
+  let col := Vo.collect_files files in
+  let t := conv_head F wz (Ix.build_head cast (length (Vo.co_syll col)) (Vo.compile_vocab sort_original col)) in
+  let g := conv_graph cv g0 in
+  forall e code txt,
+  In (mkCand TPhrase 0 e txt code) (script_phrases (lookup g t 0 false)) <->
+  (code <> [] /\ exists tx cs ws, In (Vo.LRow tx cs ws) (TP.source_rows files) /\ cs <> [] /\
+                                 txt = conv_text tx /\ code = map (Vo.id_of (Vo.co_syll col)) (Vo.split_skip x20 cs)) /\
+  spelled g code 0 e.
+Proof. exact script_candidates_source_rows. Qed.
+Print Assumptions C07_script_candidates_exact_source_rows.
 
 (** * non-vacuity *)
 Theorem C07_example_meets_hypotheses :
